@@ -184,7 +184,7 @@ static void part_a(report& r)
                     auto const& br = res.distributions()[0].results()[h0[0]];
                     L const area = d0.bin_size_x();   // y size is 1
                     L const want = L(v) * L(w) / area;
-                    if (std::fabs(L(br.sum()) - want) > 8 * eps * std::fabs(want) || std::fabs(L(br.sum_of_squares()) - want * want) > 16 * eps * want * want)
+                    if (!(std::fabs(L(br.sum()) - want) <= 8 * eps * std::fabs(want)) || !(std::fabs(L(br.sum_of_squares()) - want * want) <= 16 * eps * want * want))
                         r.violate("bin-content-1d", id, what + ": bin " + std::to_string(h0[0]) + " holds sum " + vf::dec(L(br.sum())) + " sumsq " + vf::dec(L(br.sum_of_squares()))
                             + ", expected value*weight/area = " + vf::dec(want));
                 }
@@ -208,14 +208,14 @@ static void part_a(report& r)
                     auto const& br = res.distributions()[1].results()[h1[0]];
                     L const area = L(d1.bin_size_x()) * L(d1.bin_size_y());
                     L const want = L(v) * L(w) / area;
-                    if (std::fabs(L(br.sum()) - want) > 8 * eps * std::fabs(want) || std::fabs(L(br.sum_of_squares()) - want * want) > 16 * eps * want * want)
+                    if (!(std::fabs(L(br.sum()) - want) <= 8 * eps * std::fabs(want)) || !(std::fabs(L(br.sum_of_squares()) - want * want) <= 16 * eps * want * want))
                         r.violate("bin-content-2d", id, what + ": flat bin " + std::to_string(h1[0]) + " holds sum " + vf::dec(L(br.sum())) + ", expected value*weight/area = " + vf::dec(want));
                     // mid points are listed in the same (x fastest) order
                     auto const mxs = hep::mid_points_x(res.distributions()[1]);
                     auto const mys = hep::mid_points_y(res.distributions()[1]);
                     L const wx = L(d1.x_min()) + (bxg + 0.5L) * L(d1.bin_size_x()), wy = L(d1.y_min()) + (byg + 0.5L) * L(d1.bin_size_y());
                     L const tx = 8 * eps * (std::fabs(L(d1.x_min())) + bx * L(d1.bin_size_x())), ty = 8 * eps * (std::fabs(L(d1.y_min())) + by * L(d1.bin_size_y()));
-                    if (mxs.size() != bx * by || mys.size() != bx * by || std::fabs(L(mxs[h1[0]]) - wx) > tx || std::fabs(L(mys[h1[0]]) - wy) > ty)
+                    if (mxs.size() != bx * by || mys.size() != bx * by || !(std::fabs(L(mxs[h1[0]]) - wx) <= tx) || !(std::fabs(L(mys[h1[0]]) - wy) <= ty))
                         r.violate("mid-point-order", id, what + ": mid point of flat bin " + std::to_string(h1[0]) + " reported as (" + vf::dec(L(mxs.at(h1[0]))) + ", " + vf::dec(L(mys.at(h1[0])))
                             + "), the bin that was filled is centred at (" + vf::dec(wx) + ", " + vf::dec(wy) + ")");
                 }
@@ -273,9 +273,9 @@ static void part_b(report& r)
             for (sz k = 0; k != n; ++k) mag += std::fabs(L(s.vals[k]));
             L const scale = 8 * mag / L(s.area) / n;    // generous: weights are O(1)
             if (br.calls() != n) { r.violate("bin-calls", id, id + ": bin reports calls " + std::to_string(br.calls())); ok = false; }
-            else if (std::fabs(L(br.value()) - L(sep.value())) > 8 * eps * scale)
+            else if (!(std::fabs(L(br.value()) - L(sep.value())) <= 8 * eps * scale))
             { r.violate("bin-differs-from-restricted-integral", id, id + ": bin " + std::to_string(b) + " value " + vf::dec(L(br.value())) + ", integrating f*indicator/area gives " + vf::dec(L(sep.value()))); ok = false; }
-            else if (std::fabs(L(br.variance()) - L(sep.variance())) > 64 * eps * scale * scale)
+            else if (!(std::fabs(L(br.variance()) - L(sep.variance())) <= 64 * eps * scale * scale))
             { r.violate("bin-differs-from-restricted-integral", id, id + ": bin " + std::to_string(b) + " variance " + vf::dec(L(br.variance())) + ", integrating f*indicator/area gives " + vf::dec(L(sep.variance()))); ok = false; }
             total_inside += L(br.value()) * L(s.area);
         }
@@ -285,12 +285,12 @@ static void part_b(report& r)
             auto const inside = iterate<T>(kind, n, nullptr, nullptr);
             L mag = 0;
             for (sz k = 0; k != n; ++k) mag += std::fabs(L(s.vals[k]));
-            if (std::fabs(total_inside - L(inside.value())) > 64 * eps * mag)
+            if (!(std::fabs(total_inside - L(inside.value())) <= 64 * eps * mag))
                 r.violate("bins-do-not-add-up", id, id + ": sum of bin values x areas " + vf::dec(total_inside) + ", integral of everything projected inside " + vf::dec(L(inside.value())));
             // the 2-d distribution over the same x: summing over y rows x areas gives the same
             L t2 = 0;
             for (auto const& b2 : res.distributions()[1].results()) t2 += L(b2.value()) * L(d1.bin_size_x()) * L(d1.bin_size_y());
-            if (std::fabs(t2 - L(inside.value())) > 64 * eps * mag)
+            if (!(std::fabs(t2 - L(inside.value())) <= 64 * eps * mag))
                 r.violate("bins-do-not-add-up", id, id + ": 2-d bins x areas sum to " + vf::dec(t2) + ", integral of everything projected inside " + vf::dec(L(inside.value())));
         }
         r.distinct(vf::hash_str(id));
